@@ -185,6 +185,29 @@ func c01Workload(ctx *lib.Ctx, nSkel, total int) {
 				}
 				sort.Strings(e)
 				if !lib.SetEq(g, e) {
+					// known finding: in/containsAll/containsSome over fractional numbers never match
+					c.w.Override = map[int]bool{}
+					for ai, k := range c.w.Atoms {
+						if k.Name == "inFractional" {
+							c.w.Override[ai] = false
+						}
+					}
+					e2 := []string{}
+					hasKnown := len(c.w.Override) > 0
+					if hasKnown {
+						for _, id := range c.targets {
+							if !c.w.Eval(c.f, id) {
+								e2 = append(e2, idOf(id))
+							}
+						}
+						sort.Strings(e2)
+					}
+					c.w.Override = nil
+					if hasKnown && lib.SetEq(g, e2) {
+						ctx.Count("known_in_with_fractional_number_cases", 1)
+						ctx.Violation("in-with-fractional-number", "", map[string]any{"profile": ptext, "data": dtext, "validation": c.name, "formula": lib.FString(c.f)})
+						continue
+					}
 					rp := map[string]any{"profile": ptext, "data": dtext, "validation": c.name, "formula": lib.FString(c.f),
 						"expected": map[string]any{c.name: e}, "observed": g}
 					ctx.Violation("reported-set", fmt.Sprintf("validation %s formula %s: reported %v, reference evaluator says %v", c.name, lib.FString(c.f), short(g), short(e)), rp)
